@@ -183,15 +183,18 @@ def configs(quick: bool):
                     for init_name, init_map in initial_mappings(depth):
                         out.append((dialect, depth, normalize, init_name, init_map, "small", 3))
         return out
-    # thorough: (A) the small alphabet at length 4 on depth 1-2, (B) the full alphabet at length 3 in the base
-    # dialect and snowflake, (C) the small alphabet at length 3 in every remaining dialect / normalize setting
-    for dialect in ["", "snowflake"]:
-        for depth in (1, 2):
-            for init_name, init_map in initial_mappings(depth):
-                out.append((dialect, depth, True, init_name, init_map, "small", 4))
-    for dialect in ["", "snowflake"]:
-        for depth in (1, 2, 3):
-            for init_name, init_map in initial_mappings(depth):
+    # thorough: (A) the small alphabet at length 4 in the base dialect (depth 1: both initial mappings, depth 2: the empty one),
+    # (B) the full alphabet at length 3 (base depth 1 and 2, snowflake depth 1), (C) the small alphabet at length 3 in every
+    # remaining dialect / depth / normalize setting
+    # (sized to ~30 M histories, about 20 minutes on 16 cores: the first sizing - both dialects, all depths - was 124 M and did
+    #  not finish in 90 minutes)
+    for depth in (1, 2):
+        for i, (init_name, init_map) in enumerate(initial_mappings(depth)):
+            if depth == 1 or i == 0:
+                out.append(("", depth, True, init_name, init_map, "small", 4))
+    for dialect, depth in (("", 1), ("snowflake", 1), ("", 2)):
+        for i, (init_name, init_map) in enumerate(initial_mappings(depth)):
+            if (dialect, depth) == ("", 1) or i == 0:
                 out.append((dialect, depth, True, init_name, init_map, "full", 3))
     for dialect in ["", "snowflake", "mysql", "bigquery", "duckdb"]:
         for depth in (1, 2, 3):
@@ -199,8 +202,6 @@ def configs(quick: bool):
                 if normalize is False and dialect not in ("", "snowflake"):
                     continue
                 for init_name, init_map in initial_mappings(depth):
-                    if dialect in ("", "snowflake") and normalize:
-                        continue
                     out.append((dialect, depth, normalize, init_name, init_map, "small", 3))
     return out
 
